@@ -651,7 +651,7 @@ func TestVerif(t *testing.T) {
 	var scs []vexplore.Scenario
 	all := scenarios(r.Thorough())
 	if r.Thorough() {
-		all = append(all, generated(3, [][2]bool{{true, true}, {false, false}})...)
+		all = append(all, generated(3, [][2]bool{{true, true}, {false, false}, {true, false}, {false, true}})...)
 	} else {
 		all = append(all, generated(1, [][2]bool{{true, true}, {false, false}})...)
 	}
